@@ -283,6 +283,12 @@ func svcCall(srv any, r rpcInfo, fill func(proto.Message) error) (resps []proto.
 			panicV = p
 		}
 	}()
+	return svcCallRaw(srv, r, fill)
+}
+
+// svcCallRaw is svcCall without the panic guard (used during generation, where
+// the generator library's own control-flow panics must pass through).
+func svcCallRaw(srv any, r rpcInfo, fill func(proto.Message) error) (resps []proto.Message, req proto.Message, err error, panicV any) {
 	capture := func(m proto.Message) error {
 		if e := fill(m); e != nil {
 			return e
